@@ -323,7 +323,9 @@ def dash_test_scoped(ctx, cfg, fs, rule='C.completion'):
         t = sw.target(True) if sw.kind == 'bool' else None
         if t is None:
             bad.append('dash test at %s is not a plain boolean test' % b.where(c.bb)); continue
-        deps = set(b.transitive_control_deps(t)) | {(sw.b, t)}
+        # either the test is only EVALUATED while pos_only is false (`!pos_only && arg.starts_with('-')`, also when the whole
+        # conjunction is kept in a named bool first), or what it decides is reached only then
+        deps = set(b.transitive_control_deps(t)) | {(sw.b, t)} | set(b.transitive_control_deps(c.bb))
         if not any(reads_pos_only(Switch(b, a_)) and s_ == Switch(b, a_).target(False) for (a_, s_) in deps if b.term(a_)['k'] == 'switch'):
             bad.append('what the dash test at %s decides does not depend on pos_only being false' % b.where(c.bb))
     ctx.ob(rule, 'Complete::complete:dash-test-only-left-of-separator', n >= 1 and not bad,
